@@ -4,6 +4,7 @@ import (
 	"fmt"
 	"math/bits"
 	"runtime/debug"
+	"strings"
 
 	"github.com/openacid/low/bitmap"
 
@@ -21,6 +22,9 @@ type c01Case struct {
 	// long bitmaps are named by (length, pattern) of the sweep generator instead of being listed
 	Len     int `json:"len,omitempty"`
 	Pattern int `json:"pattern,omitempty"`
+	// the EMPTY bitmap handed over in form EmptyForm-1 of gen.EmptyU64 (nil, non-nil, spare capacity, tail)
+	EmptyForm int    `json:"empty_form,omitempty"`
+	FormName  string `json:"empty_form_name,omitempty"`
 }
 
 func init() {
@@ -121,6 +125,19 @@ func c01Run(c *mc.Ctx) {
 		}
 		c.Expect(exp)
 	}
+	// the EMPTY bitmap in every form a caller can hand it over (nil, non-nil, with dirty spare capacity,
+	// empty tail of a longer array): the index shape is owed for each of them
+	for f := 0; f < gen.EmptyForms; f++ {
+		cs := c01Case{EmptyForm: f + 1, FormName: gen.EmptyFormName(f)}
+		order := int64(5)<<56 | int64(f)
+		for _, k := range []string{"IndexRank64", "IndexRank64/false", "IndexRank64/true", "IndexRank128"} {
+			if g, w := c01Judge(k, cs); g != w {
+				c.Fail(order, k+"/empty-"+gen.EmptyFormName(f), k, cs, g, w)
+			}
+		}
+		c.Count(4, 0)
+	}
+	c.Expect(4 * gen.EmptyForms)
 	{
 		maxLen := c.Pick(520, 2100)
 		c.Set("length_sweep_max_words", maxLen)
@@ -488,6 +505,12 @@ func ref128(pre []int32, total int32, nwords int) []int32 {
 
 func c01Judge(kind string, cs c01Case) (got, want string) {
 	w := []uint64(cs.Words)
+	if cs.EmptyForm > 0 {
+		w = gen.EmptyU64(cs.EmptyForm - 1)
+		if i := strings.Index(kind, "/empty-"); i >= 0 {
+			kind = kind[:i]
+		}
+	}
 	if cs.Len > 0 {
 		w = c01SweepBitmap(cs.Len, cs.Pattern)
 		if kind == "IndexRank64" || kind == "IndexRank64/true" || kind == "IndexRank128" {
